@@ -21,7 +21,7 @@
 From Coq Require Import List ZArith QArith Qabs Qround Qminmax Bool Lia Sorting.Permutation.
 From FV.C07 Require Import Model Main Props.
 From FV.C07 Require Tents Trim.
-From FV.C03 Require Import Model ProofsTents ProofsBound ProofsEval Proofs ProofsRounding ProofsAny.
+From FV.C03 Require Import Model ProofsTents ProofsBound ProofsEval Proofs ProofsRounding ProofsAny ProofsKept.
 Import ListNotations.
 Open Scope Q_scope.
 
@@ -233,6 +233,27 @@ Theorem check_glyph_frag_sound : forall n gl o D kd eps, wf_input n gl -> In o g
 Proof. exact glyph_ok_frag_sound. Qed.
 Print Assumptions check_glyph_frag_sound.
 
+(* 14. A glyph is kept as a composite only if every source lists the same base and the same 2x2
+       at the same component POSITION (and no 2x2 entry leaves [-2,2], and the glyph has no outline
+       of its own).  fontbe pairs component i of the default source with offset i of every source,
+       so this - not "the same set of (base, 2x2) pairs" - is what theorems 5 and 7 need: the
+       sequences compared at index i belong to the same component.  Which source the check looks at
+       first (HashMap order) does not matter.  A glyph that repeats a base with two different 2x2s
+       in different orders is therefore decomposed, per source, in that source's own order. *)
+Theorem kept_composite_is_positional : forall has_outline srcs, kept_composite has_outline srcs = true ->
+  has_outline = false
+  /\ forall s s', In s srcs -> In s' srcs ->
+       forall i c, nth_error s i = Some c ->
+         exists c', nth_error s' i = Some c' /\ c_base c = c_base c' /\ q4_eq (c_2x2 c) (c_2x2 c').
+Proof.
+  intros ho srcs H. unfold kept_composite in H. apply andb_true_iff in H as [H Ho].
+  apply andb_true_iff in H as [Hc _]. split; [destruct ho; [discriminate|reflexivity]|].
+  intros s s' Hs Hs' i c Hi.
+  destruct (Forall2_nth _ _ _ (consistent_positional srcs Hc s s' Hs Hs') i c Hi) as (c' & Hc' & He).
+  exists c'. split; [exact Hc'|exact He].
+Qed.
+Print Assumptions kept_composite_is_positional.
+
 (* ---- the hypotheses are satisfiable, the conclusions not vacuous ------------------------------------ *)
 (* one axis, masters at 0, 1/2 (a sparse per-glyph master, drawn off the line between its
    neighbours, with a width of 570.5) and 1; the stored tuples omit points IUP can infer *)
@@ -289,3 +310,16 @@ Example ex_tie_other_is_valid :
   valid_rounding 0 (m_weights (model_new ex_tie_gl)) ex_tie_vals [(0%nat, 880); (1%nat, -36); (2%nat, 7); (3%nat, 20)] [] = true
   /\ valid_rounding 0 (m_weights (model_new ex_tie_gl)) ex_tie_vals [(0%nat, 880); (1%nat, -36); (2%nat, 6); (3%nat, 21)] [] = false.
 Proof. vm_compute. split; reflexivity. Qed.
+
+(* the same base twice, full size and half size; the second master lists them the other way round:
+   the SET of (base, 2x2) pairs is the same in both masters, the positions are not - decomposed *)
+Example ex_reordered : list (list comp) :=
+  [ [mkComp 1 (1, 0, 0, 1) (0, 0); mkComp 1 (1 # 2, 0, 0, 1 # 2) (560, 0)];
+    [mkComp 1 (1 # 2, 0, 0, 1 # 2) (580, 0); mkComp 1 (1, 0, 0, 1) (50, 0)] ].
+Example ex_reordered_decomposed : kept_composite false ex_reordered = false.
+Proof. vm_compute. reflexivity. Qed.
+Example ex_same_order_kept :
+  kept_composite false [ [mkComp 1 (1, 0, 0, 1) (0, 0); mkComp 1 (1 # 2, 0, 0, 1 # 2) (560, 0)];
+                         [mkComp 1 (1, 0, 0, 1) (50, 0); mkComp 1 (1 # 2, 0, 0, 1 # 2) (580, 0)] ] = true.
+Proof. vm_compute. reflexivity. Qed.
+
